@@ -127,7 +127,9 @@ def wake(ctx):
 def who(ctx):
     rid = "C11.who"
     ctx.rule(rid, "who-writes table of the two flags; trigger() does nothing on an inactive variable", floor=3)
-    want = {("triggered", True): {"trigger"}, ("triggered", False): {"activate"},
+    # reset() may fire the trigger itself (same protocol: under triggerLock, followed by notify_all - C11.guard / C11.wake
+    # judge every store) instead of calling trigger()
+    want = {("triggered", True): {"trigger", "reset"}, ("triggered", False): {"activate"},
             ("activated", True): {"activate"}, ("activated", False): {"reset"}}
     for flag in ("triggered", "activated"):
         for f, top, op, val in flag_stores(ctx, flag):
@@ -159,6 +161,19 @@ def who(ctx):
                     early = True
         ctx.ob(rid, early, f.where, "trigger() on an inactive variable returns false without writing", "",
                fn=f.label, inst=f.qname)
+        # ... and it reports success only where it has seen the variable active
+        from ..typestate import NonNull
+        nn = NonNull(f)
+        for r in rets:
+            v = unwrap(f, f.children(r)[0]) if f.children(r) else None
+            if v is None or (v["k"] == "CXXBoolLiteralExpr" and v["v"] is False):
+                continue
+            rp = f.pos_of(r)
+            seen = rp is not None and (("nn", "this.activated") in nn.before.get(tuple(rp), set()) or
+                                       any(f.dominates(f.pos_of(l["st"]), rp) for l in loads if "op" not in l and f.pos_of(l["st"])))
+            ctx.ob(rid, seen, f.loc(r), "trigger() returns true only on a path that saw activated set",
+                   "" if seen else "this return does not depend on activated: on an inactive variable trigger() claims success "
+                   "(e.g. because of a stale triggered flag) although nothing was fired for the next activation", fn=f.label, inst=f.qname)
 
 
 def order(ctx):
@@ -185,8 +200,10 @@ def order(ctx):
         calls = [st for st in f.stmts.values() if st["k"] == "CXXMemberCallExpr" and st["callee"]["name"] == "trigger"]
         for c in calls:
             held = la.held_at(f.pos_of(c))
-            ok = not held
-            ctx.ob(rid, ok, f.loc(c), "reset() calls trigger() with no lock held", "" if ok else
+            # trigger() takes triggerLock: calling it with triggerLock held would self-deadlock; holding activeLock is
+            # fine as long as the order activeLock -> triggerLock has no reverse edge (C11.nonest checks the graph)
+            ok = not any(m == "this.triggerLock" for m, _mo, _k in held)
+            ctx.ob(rid, ok, f.loc(c), "reset() does not call trigger() with triggerLock held", "" if ok else
                    "held: %s" % [(m, mo) for m, mo, _ in held], fn=f.label, inst=f.qname)
         # reset deactivates the cycle it found active: the clearing store sits on the 'activated was set' side of a test of
         # activated made in reset itself (a blind clear can kill an activation that began after reset's own look)
@@ -208,6 +225,8 @@ def order(ctx):
                "false without waking anybody, so waiters blocked in wait() stay blocked" % f.loc(late[0][1]["st"]),
                fn=f.label, inst=f.qname)
         # the forced trigger must go through triggerLock: every raise of triggered in reset's closure is under it
-        ok = bool(calls) or not any(atomic_field_of(f, op) == (CLS, "triggered") and op["op"] != "load" for op in atomic_ops(f))
-        ctx.ob(rid, ok, f.where, "reset() forces the trigger through trigger() (under triggerLock), not by writing the flag itself",
-               "" if ok else "reset writes triggered directly", fn=f.label, inst=f.qname)
+        # the forced trigger goes through trigger(), or reset raises the flag itself under triggerLock
+        own = [op for op in atomic_ops(f) if atomic_field_of(f, op) == (CLS, "triggered") and op["op"] != "load"]
+        ok = bool(calls) or not own or all(f.pos_of(op["st"]) and la.holds(f.pos_of(op["st"]), "this.triggerLock", "X") for op in own)
+        ctx.ob(rid, ok, f.where, "reset() forces the trigger through trigger() or raises the flag itself under triggerLock",
+               "" if ok else "reset writes triggered without triggerLock", fn=f.label, inst=f.qname)
